@@ -55,7 +55,7 @@ func (m *Machine) condByte(e ast.Expr, rec CondRec) (Lin, bool) {
 			return m.condByte(c.Args[0], rec)
 		}
 	}
-	tmp := &Outcome{P: rec.P, TS: Lin{TS: 1}, TE: Lin{TE: 1}}
+	tmp := &Outcome{P: rec.P, TS: Lin{TS: 1}, TE: Lin{TE: 1}, ints: rec.Ints}
 	return m.dataIndex(e, tmp)
 }
 
@@ -145,7 +145,7 @@ func (m *Machine) evalLenCmp(x *ast.BinaryExpr, rec CondRec, sc byteScen) (tri, 
 		s := types.ExprString(unparen(e))
 		return s == "len(lex.data)" || s == "lex.pe"
 	}
-	tmp := &Outcome{P: rec.P, TS: Lin{TS: 1}, TE: Lin{TE: 1}}
+	tmp := &Outcome{P: rec.P, TS: Lin{TS: 1}, TE: Lin{TE: 1}, ints: rec.Ints}
 	var a Lin
 	op := x.Op
 	switch {
